@@ -17,6 +17,7 @@ CONSTANTS
   MAXREC = 4
   NOOPBUDGET = 3
   VSTAKERS = {"s1", "v"}
+  PATHS = {"keeper", "pc"}
   NONEMPTY = TRUE
   BLOCKW = 4
 INVARIANTS EmitAtDepth
